@@ -109,8 +109,8 @@ type World struct {
 	//   "ts-nonphysical"    no tombstone whose target is absent, non-physical or a parent
 	//   "ts-link"           no tombstone that removes a stored non-REGULAR object with payload (link)
 	Avoid map[string]bool
-	// Excluded counts actions redirected because of Avoid.
-	Excluded int
+	// Excluded counts, per Avoid class, the actions redirected or dropped.
+	Excluded map[string]int
 	// OnAdmission, if set, is consulted when model and code disagree on the
 	// admission of a Put: return true if the disagreement is a recorded finding
 	// and the model was switched to follow the code (the put is then replayed).
@@ -119,7 +119,7 @@ type World struct {
 
 // NewWorld creates a world over backend b.
 func NewWorld(cat mm.Catalog, b Backend, ep *stor.Epoch) *World {
-	return &World{Cat: cat, M: mm.New(), B: b, Ep: ep, Seen: map[string]bool{}, Avoid: map[string]bool{}}
+	return &World{Cat: cat, M: mm.New(), B: b, Ep: ep, Seen: map[string]bool{}, Avoid: map[string]bool{}, Excluded: map[string]int{}}
 }
 
 func (w *World) log(f string, a ...any) { w.Ops = append(w.Ops, fmt.Sprintf(f, a...)) }
@@ -160,9 +160,9 @@ func (w *World) DoPut(t *rapid.T, a mm.Addr) {
 		a = mm.Addr{C: a.C, I: r}
 		s = w.Cat.Spec(a)
 	}
-	if w.avoidPut(a, s) {
-		w.Excluded++
-		w.log("skip put %s (excluded class)", s)
+	if cl := w.avoidPut(a, s); cl != "" {
+		w.Excluded[cl]++
+		w.log("skip put %s (excluded class %s)", s, cl)
 		return
 	}
 	before := w.M.Clone()
@@ -266,39 +266,50 @@ func (w *World) plainPhysical(a mm.Addr) bool {
 	return o != nil && o.Phy && w.M.Status(a, w.Epoch).ParentKind == ""
 }
 
-func (w *World) avoidPut(a mm.Addr, s uni.Spec) bool {
-	if w.Avoid["reput-over-mark"] {
-		if w.M.Mark(a) != mm.MarkNone {
-			return true
+// allPhysical: a and everything removed together with it are stored physical objects.
+func (w *World) allPhysical(a mm.Addr) bool {
+	for _, k := range append(w.M.Children(a), a.I) {
+		if o := w.M.Get(mm.Addr{C: a.C, I: k}); o == nil || !o.Phy {
+			return false
 		}
-		if ph, ok := mm.ParentHeader(s); ok && w.M.Mark(mm.Addr{C: a.C, I: ph.ID}) != mm.MarkNone {
-			return true
+	}
+	return true
+}
+
+// avoidPut returns the Avoid class that forbids putting s now ("" if none).
+func (w *World) avoidPut(a mm.Addr, s uni.Spec) string {
+	if w.Avoid["reput-over-mark"] {
+		if w.M.Mark(a) == mm.MarkDefault && w.M.Stored(a) {
+			return "reput-over-mark"
+		}
+		if ph, ok := mm.ParentHeader(s); ok {
+			if pa := (mm.Addr{C: a.C, I: ph.ID}); w.M.Mark(pa) == mm.MarkDefault && w.M.Stored(pa) {
+				return "reput-over-mark"
+			}
 		}
 	}
 	if s.Kind == uni.Tombstone {
 		ta := mm.Addr{C: a.C, I: s.Target}
 		if w.Avoid["ts-nonphysical"] && !w.plainPhysical(ta) {
-			return true
+			return "ts-nonphysical"
 		}
 		if w.Avoid["ts-link"] {
 			for _, k := range append(w.M.Children(ta), ta.I) {
 				if o := w.M.Get(mm.Addr{C: a.C, I: k}); o != nil && o.Type != mm.TRegular && o.Size > 0 {
-					return true
+					return "ts-link"
 				}
 			}
 		}
 		if w.Avoid["ts-on-marked"] {
-			if w.M.Mark(ta) != mm.MarkNone {
-				return true
-			}
-			for _, k := range w.M.Children(ta) {
-				if w.M.Mark(mm.Addr{C: a.C, I: k}) != mm.MarkNone {
-					return true
+			for _, k := range append(w.M.Children(ta), ta.I) {
+				x := mm.Addr{C: a.C, I: k}
+				if o := w.M.Get(x); o != nil && o.Size > 0 && w.M.MarkedForRemoval(x) {
+					return "ts-on-marked"
 				}
 			}
 		}
 	}
-	return false
+	return ""
 }
 
 // Actions returns the action map for t.Repeat (without the "" invariant).
@@ -334,23 +345,31 @@ func (w *World) Actions() map[string]func(*rapid.T) {
 			ids = dedup(ids)
 		}
 		red := rapid.IntRange(0, 2).Draw(t, "redundant") == 0
-		if red && w.Avoid["mark-redundant"] {
-			red = false
-			w.Excluded++
-		}
 		if w.Avoid["mark-nonphysical"] {
 			var keep []int
 			for _, id := range ids {
-				if w.plainPhysical(mm.Addr{C: c, I: id}) {
+				if w.allPhysical(mm.Addr{C: c, I: id}) {
 					keep = append(keep, id)
 				}
 			}
 			if len(keep) != len(ids) {
-				w.Excluded++
+				w.Excluded["mark-nonphysical"]++
 			}
 			if ids = keep; len(ids) == 0 {
-				w.log("skip mark (excluded class)")
+				w.log("skip mark (excluded class mark-nonphysical)")
 				return
+			}
+		}
+		if red && w.Avoid["mark-redundant"] {
+			for _, id := range ids {
+				for _, k := range append(w.M.Children(mm.Addr{C: c, I: id}), id) {
+					if o := w.M.Get(mm.Addr{C: c, I: k}); o != nil && o.Size > 0 {
+						red = false
+					}
+				}
+			}
+			if !red {
+				w.Excluded["mark-redundant"]++
 			}
 		}
 		mk := meta.GarbageMarkDefault
@@ -416,11 +435,6 @@ func (w *World) Actions() map[string]func(*rapid.T) {
 	}
 	revive := func(t *rapid.T) {
 		a := w.drawAddr(t)
-		if w.Avoid["revive"] {
-			w.Excluded++
-			w.DoPut(t, a)
-			return
-		}
 		var cand []int
 		for i := 0; i < uni.NObjects; i++ {
 			if w.M.MarkedForRemoval(mm.Addr{C: a.C, I: i}) {
@@ -429,6 +443,11 @@ func (w *World) Actions() map[string]func(*rapid.T) {
 		}
 		if len(cand) > 0 && rapid.IntRange(0, 4).Draw(t, "marked") > 0 {
 			a.I = rapid.SampledFrom(cand).Draw(t, "rid")
+		}
+		if w.Avoid["revive"] && w.M.Stored(a) && w.M.MarkedForRemoval(a) {
+			w.Excluded["revive"]++
+			w.log("skip revive %s (excluded class revive)", a)
+			return
 		}
 		tss := w.M.Tombstones(a)
 		res, err := w.B.Revive(a.OID())
